@@ -23,15 +23,16 @@ type vReply struct {
 }
 
 type vSeq struct {
-	slock   *SLock
-	db      *LockDB
-	conns   []*MemWaiterServerProtocol
-	connIdx map[*MemWaiterServerProtocol]int
-	replies []vReply
-	tq, eq  []*LockQueue
-	base    protocol.LockDBState
-	dir     string
-	onReply func(r vReply)
+	slock     *SLock
+	db        *LockDB
+	conns     []*MemWaiterServerProtocol
+	connIdx   map[*MemWaiterServerProtocol]int
+	replies   []vReply
+	tq, eq    []*LockQueue
+	base      protocol.LockDBState
+	dir       string
+	onReply   func(r vReply)
+	expectNow int64
 }
 
 func vId16(n int) [16]byte {
@@ -43,6 +44,11 @@ func vId16(n int) [16]byte {
 func vInt16(b [16]byte) int {
 	return int(b[0]) | int(b[1])<<8 | int(b[2])<<16 | int(b[3])<<24
 }
+
+// vFastPark: create the LockDB while the node state is CLOSE, so that the four background loops see CLOSE at their first
+// check and exit at once (used by replay / shrinking, where one instance per candidate is needed). The virtual-clock guard
+// in tick() would notice a loop that survived.
+var vFastPark = false
 
 func vNewSeq(nconn int, aofTime uint8) *vSeq {
 	dir, err := os.MkdirTemp(os.Getenv("VERIF_DATA"), "seq")
@@ -57,12 +63,21 @@ func vNewSeq(nconn int, aofTime uint8) *vSeq {
 	logger, _ := InitLogger(cfg)
 	s := NewSLock(cfg, logger)
 	s.aof.dataDir = dir
-	s.state = STATE_LEADER
-	db := NewLockDB(s, 0)
-	s.dbs[0] = db
-	// park the four background loops, then take over the clock
-	db.status = STATE_CLOSE
-	time.Sleep(1250 * time.Millisecond)
+	var db *LockDB
+	if vFastPark {
+		s.state = STATE_CLOSE
+		db = NewLockDB(s, 0)
+		s.dbs[0] = db
+		time.Sleep(40 * time.Millisecond)
+		s.state = STATE_LEADER
+	} else {
+		s.state = STATE_LEADER
+		db = NewLockDB(s, 0)
+		s.dbs[0] = db
+		// park the four background loops, then take over the clock
+		db.status = STATE_CLOSE
+		time.Sleep(1250 * time.Millisecond)
+	}
 	db.status = STATE_LEADER
 	db.aofTime = aofTime
 	v := &vSeq{slock: s, db: db, connIdx: map[*MemWaiterServerProtocol]int{}, dir: dir}
@@ -90,6 +105,7 @@ func vNewSeq(nconn int, aofTime uint8) *vSeq {
 }
 
 func (v *vSeq) setClock(now int64) {
+	v.expectNow = now
 	v.db.currentTime = now
 	v.db.checkTimeoutTime = now + 1
 	v.db.checkExpriedTime = now + 1
@@ -98,7 +114,11 @@ func (v *vSeq) setClock(now int64) {
 // tick: one second of server time, exactly what updateCurrentTime/checkTimeOut/checkExpried do for it.
 func (v *vSeq) tick() {
 	db := v.db
+	if v.expectNow != 0 && db.currentTime != v.expectNow {
+		panic(fmt.Sprintf("harness: the virtual clock was overwritten (%d, expected %d): a background sweeper is still alive", db.currentTime, v.expectNow))
+	}
 	now := db.currentTime + 1
+	v.expectNow = now
 	db.currentTime = now
 	c := db.checkTimeoutTime
 	db.checkTimeoutTime = now + 1
